@@ -119,7 +119,7 @@ func marshalStructValue(field reflect.Value, fieldType reflect.StructField) (str
 	case reflect.String:
 		return field.String(), nil
 	case reflect.Uint:
-		return strconv.Itoa(int(field.Uint())), nil
+		return strconv.FormatUint(field.Uint(), 10), nil
 	case reflect.Int:
 		return strconv.Itoa(int(field.Int())), nil
 	case reflect.Ptr:
